@@ -1,5 +1,6 @@
 import TempestVerif.Props.C16
 import TempestVerif.Props.C07SM
+import TempestVerif.Model.RecSM2
 /-
   C07 (clause audit) — "its unit-cube coordinates lie in [0,1]^d": the hypothesis `hfold` of the run theorems of
   `Props.C07SM` (a proposal that passed the bounds check after the boundary fold lies in the cube) is DISCHARGED
@@ -60,17 +61,17 @@ variable {X L B : Type}
 /-- C07 over a whole run with the REAL boundary maps (exact arithmetic): no hypothesis about proposals is left — only
     that the prior draws (`np.random.rand`) lie in the cube -/
 theorem C07_sm_run_boundary (T : List ℝ → X) (Lk : X → L × B) (cfg : Cfg) (hg : GateOk cfg) (isInf : L → Bool)
-    (per refl : List Nat) (ts : List (Tape (List ℝ))) {s' : St (List ℝ) X L B} {rets : List (Cur (List ℝ) X L B)}
+    (per refl : List Nat) (ts : List (TapeR (List ℝ))) {s' : St (List ℝ) X L B} {rets : List (Cur (List ℝ) X L B)}
     (hts : ∀ t ∈ ts, TapeOk InCube t)
-    (h : runIters cfg T Lk isInf (apply per refl) (checkBounds per refl) init ts = some (s', rets)) :
+    (h : runItersR cfg T Lk isInf (apply per refl) (checkBounds per refl) init ts = some (s', rets)) :
     Inv T Lk InCube cfg s' ∧ rets.length = ts.length ∧ ∀ c ∈ rets, CurCoh T Lk InCube cfg c :=
   C07_sm_run_fresh T Lk InCube cfg hg isInf _ _ (fun p hp => C07_fold_check_in_cube per refl p hp) ts hts h
 
 /-- … and in rounded arithmetic -/
 theorem C07_sm_run_boundary_round (r : Rounding) (T : List (RR r) → X) (Lk : X → L × B) (cfg : Cfg) (hg : GateOk cfg)
-    (isInf : L → Bool) (per refl : List Nat) (ts : List (Tape (List (RR r)))) {s' : St (List (RR r)) X L B}
+    (isInf : L → Bool) (per refl : List Nat) (ts : List (TapeR (List (RR r)))) {s' : St (List (RR r)) X L B}
     {rets : List (Cur (List (RR r)) X L B)} (hts : ∀ t ∈ ts, TapeOk InCube t)
-    (h : runIters cfg T Lk isInf (apply per refl) (checkBounds per refl) init ts = some (s', rets)) :
+    (h : runItersR cfg T Lk isInf (apply per refl) (checkBounds per refl) init ts = some (s', rets)) :
     Inv T Lk InCube cfg s' ∧ rets.length = ts.length ∧ ∀ c ∈ rets, CurCoh T Lk InCube cfg c :=
   C07_sm_run_fresh T Lk InCube cfg hg isInf _ _ (fun p hp => C07_fold_check_in_cube_round r per refl p hp) ts hts h
 
